@@ -44,7 +44,7 @@ theorem cleanup_fields (z : State) :
   have hb : heightOf batchCleanupSrc z = z.obsExt := by rw [e1]; rfl
   have hc : heightOf callCleanupSrc (cleanupBatches z) = z.obsExt := by rw [e2]; rfl
   simp only
-  obtain ⟨fm, hfm⟩ := cleanupCalls_core (cleanupBatches z)
+  obtain ⟨fm, er, hfm⟩ := cleanupCalls_core (cleanupBatches z)
   rw [hfm]
   unfold cleanupCallsCore
   obtain ⟨_, h2, h3, _, h5, h6, _⟩ := foldl_refundCall (expiredCalls (heightOf callCleanupSrc (cleanupBatches z)) (cleanupBatches z).calls)
@@ -254,7 +254,7 @@ theorem J_pcall {s : State} {x : Ext} (hj : J s x) (a r : Addr) (to d m : String
 /-! ## applying a pending result -/
 
 theorem J_exec {s : State} {x : Ext} (hj : J s x) (n : Nat) : J (doExec s n).1 x := by
-  unfold doExec
+  rw [doExec_flags]; unfold doExecFlags
   split
   · exact hj
   · rename_i p hp
@@ -377,10 +377,10 @@ theorem next_psend_fields (x : Ext) (s : State) (a : Addr) (d : String) (t am f 
   simp only [Ext.nextStd]
   split <;> exact ⟨rfl, rfl, rfl, rfl, rfl⟩
 
-theorem next_incFee_fields (x : Ext) (s : State) (id : Nat) (who : Addr) (t add : Nat) :
-    (x.nextStd s (.incFee id who t add)).height = x.height ∧ (x.nextStd s (.incFee id who t add)).lastNonce = x.lastNonce ∧
-    (x.nextStd s (.incFee id who t add)).created = x.created ∧ (x.nextStd s (.incFee id who t add)).createdCalls = x.createdCalls ∧
-    (x.nextStd s (.incFee id who t add)).callDone = x.callDone := by
+theorem next_incFee_fields (x : Ext) (s : State) (id : Nat) (who : Addr) (t add : Nat) (evm : Bool) :
+    (x.nextStd s (.incFee id who t add evm)).height = x.height ∧ (x.nextStd s (.incFee id who t add evm)).lastNonce = x.lastNonce ∧
+    (x.nextStd s (.incFee id who t add evm)).created = x.created ∧ (x.nextStd s (.incFee id who t add evm)).createdCalls = x.createdCalls ∧
+    (x.nextStd s (.incFee id who t add evm)).callDone = x.callDone := by
   simp only [Ext.nextStd]
   split <;> exact ⟨rfl, rfl, rfl, rfl, rfl⟩
 
@@ -409,8 +409,8 @@ theorem J_step {s : State} {x : Ext} (hj : J s x) (op : Op) (ha : admissibleStd 
     simp only [step, Ext.nextStd]; unfold doCancel
     repeat' split
     all_goals first | exact hj | exact J_frame hj rfl rfl rfl rfl rfl rfl
-  | incFee id who t add =>
-    refine J_ext ?_ (next_incFee_fields x s id who t add)
+  | incFee id who t add evm =>
+    refine J_ext ?_ (next_incFee_fields x s id who t add evm)
     simp only [step]; unfold doIncFee
     repeat' split
     all_goals first | exact hj | exact J_frame hj rfl rfl rfl rfl rfl rfl
@@ -521,7 +521,7 @@ theorem released_only_by_observation (s : State) (op : Op) :
   | cancel id who =>
     simp only [step]; unfold doCancel
     constructor <;> intro r hr hn <;> exfalso <;> apply hn <;> (repeat' split) <;> exact hr
-  | incFee id who t add =>
+  | incFee id who t add evm =>
     simp only [step]; unfold doIncFee
     constructor <;> intro r hr hn <;> exfalso <;> apply hn <;> (repeat' split) <;> exact hr
   | reqBatch t mf bf fr =>
@@ -566,12 +566,12 @@ theorem released_only_by_observation (s : State) (op : Op) :
     constructor
     · intro b hb hn
       exfalso; apply hn
-      unfold doExec
+      rw [doExec_flags]; unfold doExecFlags
       repeat' split
       all_goals first | exact hb | (simp only [refundCall]; exact hb)
     · intro c hc hn
       right
-      unfold doExec at hn
+      rw [doExec_flags] at hn; unfold doExecFlags at hn
       split at hn
       · exact absurd hc hn
       · rename_i p hp
@@ -697,8 +697,8 @@ theorem N_step {s : State} {x : Ext} (hn : N s x) (op : Op) : N (step s op).1 (x
     simp only [step, Ext.nextStd]; unfold doCancel
     repeat' split
     all_goals first | exact hn | exact N_shrink hn rfl rfl (fun _ h => h) (fun _ h => h) rfl rfl
-  | incFee id who t add =>
-    obtain ⟨_, _, e3, e4, _⟩ := next_incFee_fields x s id who t add
+  | incFee id who t add evm =>
+    obtain ⟨_, _, e3, e4, _⟩ := next_incFee_fields x s id who t add evm
     simp only [step]; unfold doIncFee
     repeat' split
     all_goals exact N_shrink hn e3 e4 (fun _ h => h) (fun _ h => h) rfl rfl
@@ -768,7 +768,7 @@ theorem N_step {s : State} {x : Ext} (hn : N s x) (op : Op) : N (step s op).1 (x
         rw [f2, g1] at hc
         exact (dropWhile_sublist _).subset hc
   | exec n =>
-    simp only [step, Ext.nextStd]; unfold doExec
+    simp only [step, Ext.nextStd]; rw [doExec_flags]; unfold doExecFlags
     repeat' split
     all_goals first
       | exact hn
@@ -827,8 +827,8 @@ theorem T_step {s : State} {x : Ext} (ht : T x) (op : Op) : T (x.nextStd s op) :
   | psend a d t am f =>
     obtain ⟨_, _, e3, e4, _⟩ := next_psend_fields x s a d t am f
     exact ⟨by rw [e3]; exact ht.batches, by rw [e4]; exact ht.calls⟩
-  | incFee id who t add =>
-    obtain ⟨_, _, e3, e4, _⟩ := next_incFee_fields x s id who t add
+  | incFee id who t add evm =>
+    obtain ⟨_, _, e3, e4, _⟩ := next_incFee_fields x s id who t add evm
     exact ⟨by rw [e3]; exact ht.batches, by rw [e4]; exact ht.calls⟩
   | cancel id who => exact ht
   | exec n => exact ht
